@@ -153,14 +153,16 @@ def _words(n, seed):
 
 def _akai_image():
     from vf import akaiw
+    from vf.props import c20
     sf = akaiw.sample_file
+    prog = c20.build_program(1, [2], [150])[0]
     return akaiw.partition([
-        ("VOL A", [("KICK+1", 0x73, sf("KICK+1", _words(50, 1)), None), ("SNARE", 0xf3, sf("SNARE", _words(60, 2), rate=22050), None),
+        ("VOL A", [("KICK+1", 0x73, sf("KICK+1", _words(50, 1)), None), ("LEAD PRG", 0xf0, prog, None), ("SNARE", 0xf3, sf("SNARE", _words(60, 2), rate=22050), None),
                    ("PAD -L", 0x73, sf("PAD -L", _words(40, 3)), None), ("PAD -R", 0x73, sf("PAD -R", _words(40, 4)), None)], None),
         ("VOL B", [("HAT", 0x73, sf("HAT", _words(30, 5)), None), ("HAT", 0x73, sf("HAT", _words(20, 6)), None)], None)], size_sectors=16)
 
 
-AKAI_OPS = [("ls", ""), ("ls", "A:"), ("ls", "A:/VOL A"), ("ls", "a/vol a/KICK 1"), ("ls", "Q:/NOPE"), ("ls", "A:/VOL B/"), ("export", None)]
+AKAI_OPS = [("ls", ""), ("ls", "A:"), ("ls", "A:/VOL A"), ("ls", "a/vol a/KICK 1"), ("ls", "Q:/NOPE"), ("ls", "A:/VOL A/LEAD PRG"), ("export", None)]
 
 
 def _open_akai(img_bytes):
